@@ -227,30 +227,30 @@ fn main() {
         |s| {
             let quick = s.quick();
             let thorough = !quick;
-            s.require("multi-request-batch", if quick { 200 } else { 2000 });
-            s.require("failed-request", if quick { 150 } else { 1500 });
-            s.require("transport:http-json", if quick { 100 } else { 1000 });
-            s.require("transport:http-protobuf", if quick { 100 } else { 1000 });
-            s.require("transport:grpc", if quick { 100 } else { 1000 });
-            s.require("gzip:on", if quick { 100 } else { 1000 });
-            s.require("gzip:off", if quick { 100 } else { 1000 });
+            s.require("multi-request-batch", if quick { 200 } else { 8000 });
+            s.require("failed-request", if quick { 150 } else { 6000 });
+            s.require("transport:http-json", if quick { 100 } else { 4000 });
+            s.require("transport:http-protobuf", if quick { 100 } else { 4000 });
+            s.require("transport:grpc", if quick { 100 } else { 4000 });
+            s.require("gzip:on", if quick { 100 } else { 4000 });
+            s.require("gzip:off", if quick { 100 } else { 4000 });
             for f in ["status-5xx", "status-4xx", "close-before-read", "read-then-close", "grpc-status", "grpc-trailers-only-status", "grpc-http-status", "ack-then-close"] {
-                s.require(&format!("fault:{f}"), if quick { 4 } else { 60 });
+                s.require(&format!("fault:{f}"), if quick { 4 } else { 200 });
             }
-            s.require("fault:stall", if quick { 15 } else { 150 });
-            s.require("outage:refused", if quick { 4 } else { 60 });
-            s.require("outage:reset", if quick { 4 } else { 60 });
-            s.require("outage:503", if quick { 4 } else { 60 });
-            s.require("ending:drop-while-queued", if quick { 8 } else { 60 });
-            s.require("ending:drop-during-backoff", if quick { 8 } else { 60 });
+            s.require("fault:stall", if quick { 15 } else { 600 });
+            s.require("outage:refused", if quick { 4 } else { 200 });
+            s.require("outage:reset", if quick { 4 } else { 200 });
+            s.require("outage:503", if quick { 4 } else { 200 });
+            s.require("ending:drop-while-queued", if quick { 8 } else { 200 });
+            s.require("ending:drop-during-backoff", if quick { 8 } else { 200 });
 
             // (family, cases quick, cases thorough, parallel generator instances)
             let plan: [(Family, &str, u64, u64, usize); 5] = [
-                (Family::Split, "split", 20, 300, 2),
-                (Family::Fault, "fault", 30, 300, 4),
-                (Family::Outage, "outage", 8, 100, 2),
-                (Family::Drop, "drop", 10, 80, 2),
-                (Family::Stall, "stall", 12, 100, 1),
+                (Family::Split, "split", 20, 1200, 2),
+                (Family::Fault, "fault", 30, 1200, 4),
+                (Family::Outage, "outage", 8, 400, 2),
+                (Family::Drop, "drop", 10, 320, 2),
+                (Family::Stall, "stall", 12, 400, 1),
             ];
             let wires = [(Wire::HttpJson, "http-json"), (Wire::HttpProto, "http-protobuf"), (Wire::Grpc, "grpc")];
             // Cases mostly sleep (back-off, timeouts): every generator runs in its own thread at once.
